@@ -44,6 +44,14 @@ def harness(tier, seed):
         sym = bool((m == m.T).all())
         if not np.array_equal(np.array(inst), m):
             viol.append(("stored-differs", info, str(np.array(inst).tolist())))
+        # "the stored matrix equals the given one": also after the caller goes on using its own array
+        keep = m.copy()
+        m[0, 1] += 1
+        m[1, 0] += 1
+        if not np.array_equal(np.array(inst), keep):
+            viol.append(("stored-shares-memory-with-the-given-matrix", info,
+                         "writing into the caller's array afterwards changed the instance"))
+        m = keep
         if bool(inst.is_symmetric) != sym:
             viol.append(("symmetry-flag", info, f"is_symmetric={inst.is_symmetric}, matrix symmetric={sym}"))
         ub = sum(max(int(m[i, j]) for j in range(n) if j != i) for i in range(n))
